@@ -264,7 +264,7 @@ theorem expand_filterMap_sched (c : Cfg) (evs : List Event) :
   | nil => simp
   | cons ev evs ih =>
     cases hs : c.hasSched <;>
-      cases ev <;> simp [expandEv, schedOf, epochEndOf, List.filterMap_cons, List.filterMap_append, ih, hs]
+      cases ev <;> simp [expandEv, schedOf, epochEndOf, List.filterMap_cons, ih, hs]
 
 /-! ## Property theorems -/
 
@@ -291,8 +291,8 @@ theorem C12_train_events_once (c : Cfg) (R : Req) (stop₀ : Bool) (hnb : 1 ≤ 
     obtain ⟨_, h2, h3⟩ := epochs_start_end ht
     rw [he]
     refine ⟨?_, ?_, fun _ => ⟨rfl, ?_⟩⟩
-    · simp [List.count_cons, List.count_append, List.count_eq_zero_of_not_mem h2]
-    · simp [List.count_cons, List.count_append, List.count_eq_zero_of_not_mem h3]
+    · simp [List.count_append, List.count_eq_zero_of_not_mem h2]
+    · simp [List.count_append, List.count_eq_zero_of_not_mem h3]
     · rw [← List.cons_append, List.getLast?_append]; simp
   · rw [fit_stopped]; simp
 
